@@ -476,7 +476,8 @@ class Check(BaseCheck):
         for t in ts:
             self.judge_tree(rec, t)
         for code in CODES8:
-            for f in (code, '1+' + code, 'IFERROR(%s,1)' % code, '-' + code, code + '&"a"', code + '=' + code):
+            for f in (code, '1+' + code, 'IFERROR(%s,1)' % code, '-' + code, code + '&"a"', code + '=' + code, code + '/0', code + '/A1', code + '/2', code + '*2', '2/' + code,
+                      'SUM(' + code + '/0,1)', code + '+' + 'Z9'):
                 r = self.e.raw(f)
                 rec.case()
                 if r['error'] != code or r['result'] is not None:
